@@ -49,7 +49,9 @@ def histories(draw):
         st.tuples(st.integers(0, nstreams - 1),
                   st.floats(0, max(horizon, 0.001), allow_nan=False)),
         max_size=2))
+    tick = draw(st.sampled_from([0.0, 0.0, 1e-6, 1e-4]))
     return {'kind': 'des', 'max_bw': max_bw, 'threshold': threshold,
+            'tick': tick,
             'streams': streams, 'late': late,
             'abandon': [list(a) for a in abandon], 'saturated': sat,
             'sched': draw(schedules(60))}
@@ -68,7 +70,9 @@ def run_history(case):
     from ..e2e import patched
     import s3transfer.bandwidth as bw
     sched = Scheduler(make_policy(case.get('sched')), max_steps=50000)
+    sched.tick = case.get('tick') or 0.0
     max_bw = case['max_bw']
+    probes = []
     reads = []        # (t_return, stream, size, t_request, nsleeps)
     spans = []        # (step enter, step exit, stream, amount, nsleeps)
     sleeps = []       # (t, stream, duration, waiting_amounts, own_amt)
@@ -153,13 +157,33 @@ def run_history(case):
                 exc_of[i] = (e, sched.clock)
                 coords[i].set_exception(e)
             return run
+        runners = []
         for i, script in enumerate(case['streams']):
-            sched.spawn(runner(i, script), f'stream{i}')
+            runners.append(sched.spawn(runner(i, script), f'stream{i}'))
         for (i, t) in case.get('abandon') or []:
             if i < len(coords) and i not in [a for a, _ in
                                               state.get('ab', [])]:
                 state.setdefault('ab', []).append((i, t))
                 sched.spawn(abandoner(i, t), f'abandon{i}')
+        if sched.tick:
+            # probe phase (only when time strictly advances, so that two
+            # consumptions never carry the same timestamp): long after all
+            # streams are finished, tiny reads separated by long idle
+            # periods must stop being throttled - throttling must not slow
+            # transfers permanently
+            sched.point(lambda: all(not r.alive for r in runners),
+                        'probe.wait')
+            pc = TransferCoordinator(transfer_id=99)
+            ps = bw.BandwidthLimitedStream(_Src(), bucket, pc,
+                                           bw.TimeUtils(), bytes_threshold=1)
+            cur_stream[sched.cur.tid] = 'probe'
+            idle = 100.0 + 1000.0 * 1000 / max_bw
+            for k in range(24):
+                sched.sleep(idle)
+                state[('nsleep', 'probe')] = 0
+                state[('amt', 'probe')] = 1
+                ps.read(1)
+                probes.append(state[('nsleep', 'probe')])
 
     saved_time = bw.time
     with patched(sched):
@@ -179,6 +203,12 @@ def run_history(case):
                  repr(sched.errors[0])), info)
     nstreams = len(case['streams'])
     abandoned = {i for i in exc_of}
+    if probes and all(p > 0 for p in probes[-3:]):
+        return (('des:permanently-throttled',
+                 f'after all streams finished, 24 one-byte reads separated '
+                 f'by long idle periods were still being delayed '
+                 f'({probes}): throttling never recovers'), info)
+    sleeps[:] = [x for x in sleeps if x[1] != 'probe']
     # (v) every non-abandoned stream finishes
     for i in range(nstreams):
         o = outcome.get(i)
@@ -192,11 +222,17 @@ def run_history(case):
                          f'{e!r}'), info)
     # (iv) no sleep is requested by a stream after its coordinator failed,
     # and its next limiter interaction raises
+    after = {}
     for (t, s, d, w, amt, stp) in sleeps:
         if s in exc_of and t > exc_of[s][1] + TOL:
-            return (('des:sleep-after-failure',
-                     f'stream {s} requested a sleep at t={t} after its '
-                     f'transfer failed at t={exc_of[s][1]}'), info)
+            # one sleep may race the failure (its check of the transfer's
+            # error came first); a second one means it keeps waiting
+            after[s] = after.get(s, 0) + 1
+            if after[s] >= 2:
+                return (('des:sleep-after-failure',
+                         f'stream {s} requested {after[s]} sleeps (last at '
+                         f't={t}) after its transfer failed at '
+                         f't={exc_of[s][1]}'), info)
         if s in exc_of and exc_of[s][1] > t and exc_of[s][1] < t + d:
             info['abandoned_parked'] = True
     for (a, b, i, am, ns) in spans:
